@@ -1,7 +1,7 @@
 /-
 Driver op of the gostring family (C06).
 
-  op <id> gostring <T> <v>   → model=<canonical observation of evalG (goString env T v)>;eq=<b> spec=<b>
+  op <id> gostring <T> <v>   → model=<canonical observation of evalG (goString env T v)>;skel=<skeleton of goString env T v>;eq=<b> spec=<b>
 
 `eq` is the specification's verdict `Spec.structEq env T v v'` on the model's value (the Go side
 prints reflect.DeepEqual(original, evaluated) in the same place); `spec` repeats it as true/false.
@@ -64,6 +64,55 @@ def maxAddr (v : Val) : Nat := (addrs v).foldl max 0
 
 def b01 (b : Bool) : String := if b then "1" else "0"
 
+open GoString in
+/-- number of elements of a literal spine -/
+def elen {τ : Type} : G τ → Nat
+  | .econs _ t => elen t + 1
+  | _ => 0
+
+open GoString in
+mutual
+/-- the statement skeleton of a text (leaf literals as `L`, type names dropped): mirrors
+`Skeleton` of harness/gostring/skel.go, which computes it from the real text with go/parser -/
+partial def skelE {τ : Type} : G τ → String
+  | .leaf _ _ => "L"
+  | .sliceLit _ es => s!"S{elen es}"
+  | .arrayLit _ es => s!"A{elen es}"
+  | .mapLit _ es => s!"M{elen es}"
+  | .addrOf _ _ => "&L"
+  | .addrEmpty _ => "&{}"
+  | .call _ body =>
+    -- map entries are printed in map iteration order: sort the entry statements (as skel.go does)
+    let ss := skelB body
+    let isEnt := fun (s : String) => s.startsWith "[L]=" || s.startsWith "k:="
+    let ents := (ss.filter isEnt).toArray.qsort (· < ·) |>.toList
+    let others := ss.filter (fun s => !isEnt s)
+    "f{" ++ ";".intercalate (others.dropLast ++ ents ++ others.getLast?.toList) ++ "}"
+  | _ => "BAD"
+partial def skelB {τ : Type} : G τ → List String
+  | .seq .skip rest => skelB rest
+  | .seq (.keyDecl _ e) (.seq (.setKeyVar _ e') rest) => ("k:=" ++ skelE e ++ ";[k]=" ++ skelE e') :: skelB rest
+  | .seq s rest => skelS s :: skelB rest
+  | .retThis => ["ret"]
+  | .retDeref => ["ret*"]
+  | .retNil => ["retnil"]
+  | .ret e => ["ret=" ++ skelE e]
+  | _ => ["BAD"]
+partial def skelS {τ : Type} : G τ → String
+  | .newStruct _ => "this:=&{}"
+  | .newPtr _ => "this:=new"
+  | .makeSlice _ n => s!"this:=make({n})"
+  | .makeMap _ => "this:=make"
+  | .arrZero _ => "this:={}"
+  | .setField i _ e => s!".{i}=" ++ skelE e
+  | .setDeref e => "*=" ++ skelE e
+  | .setIndex i e => s!"[{i}]=" ++ skelE e
+  | .setKeyLit _ e => "[L]=" ++ skelE e
+  | .keyDecl j e => s!"k{j}:=" ++ skelE e
+  | .setKeyVar j e => s!"[k{j}]=" ++ skelE e
+  | _ => "BAD"
+end
+
 def run (s : DState) (name : String) (args : List SExp) : Option String :=
   let env := s.env
   match name, args with
@@ -75,12 +124,13 @@ def run (s : DState) (name : String) (args : List SExp) : Option String :=
       else if !(GoString.finiteFloats v) then "non-finite"
       else if !(GoString.SupportedGS env T) then "unsupported"
       else
-        match GoString.evalG env GoString.valLex (GoString.goString env GoString.valLex T v) (maxAddr v + 1) with
+        let text := GoString.goString env GoString.valLex T v
+        match GoString.evalG env GoString.valLex text (maxAddr v + 1) with
         | .panic => "model=panic spec=false"
         | .ok (v', _) =>
           let e := Spec.structEq env T v v'
           let fresh := (addrs v').all fun a => a > maxAddr v
-          s!"model={canon v'};eq={b01 (e && fresh)} spec={e}"
+          s!"model={canon v'};skel={skelE text};eq={b01 (e && fresh)} spec={e}"
     | _, _ => "bad-op"
   | _, _ => none
 
